@@ -47,12 +47,14 @@ impl<'a> ZoneModel<'a> {
         }
     }
     fn rule_at(&self, r: &MRule, u: i64) -> Fwd {
+        // outside the years for which the property quantifies (i32::MIN+2 ..= i32::MAX-2) the rule's answer is not pinned:
+        // today the crate refuses with OutOfRange; evaluating the rule there would be equally compatible
         if u < cal::min_unix() || u > cal::max_unix() {
-            return Fwd::OutOfRange;
+            return Fwd::Unspecified;
         }
         let y = cal::civil_from_unix(u as i128).y;
         if y < i32::MIN as i64 + 2 || y > i32::MAX as i64 - 2 {
-            return Fwd::OutOfRange;
+            return Fwd::Unspecified;
         }
         match self.class.unwrap() {
             Class::Overlap | Class::Unstable => Fwd::Unspecified,
